@@ -358,6 +358,47 @@ class Gen:
         return forms
 
 
+NUMERIC_OPS = {"+": (1, 3), "*": (1, 3), "-": (1, 3), "/": (1, 3), "max": (1, 3), "min": (1, 3), "=": (1, 3), "<": (1, 3), ">": (1, 3),
+               "<=": (1, 3), ">=": (1, 3), "abs": (1, 1), "floor": (1, 1), "ceiling": (1, 1), "exact": (1, 1),
+               "floor-quotient": (2, 2), "floor-remainder": (2, 2)}
+NON_NUMBERS = ["'a", '"s"', "#t", "#\\c", "'(1)", "(vector 1)", "car", "'()"]
+NON_PAIRS = ["5", "'()", '"s"', "(vector 1)", "'a", "#f"]
+NON_VECTORS = ["5", "'(1 2)", '"s"', "'a", "car"]
+
+
+def type_fault(rng):
+    """a builtin applied to an argument of the wrong type: every numeric builtin at every arity it accepts with the
+    offending argument at every position, pair and vector accessors; written as a direct call, through apply (with and
+    without leading arguments) or handed to map as a procedure"""
+    k = rng.random()
+    if k < 0.6:
+        op = rng.choice(sorted(NUMERIC_OPS))
+        lo, hi = NUMERIC_OPS[op]
+        n = rng.randrange(lo, hi + 1)
+        args = [rng.choice(["1", "2", "1/2", "1.5", "7"]) for _ in range(n)]
+        args[rng.randrange(n)] = rng.choice(NON_NUMBERS)
+    elif k < 0.8:
+        op = rng.choice(["car", "cdr", "cadr", "cddr", "caar", "cdar"])
+        args = [rng.choice(NON_PAIRS + (["'(1)"] if op in ("cadr", "cddr", "caar", "cdar") else []))]
+        if op == "cddr" and args == ["'(1)"]:
+            args = ["5"]
+    else:
+        op, args = rng.choice([("vector-ref", [rng.choice(NON_VECTORS), "0"]), ("vector-ref", ["(vector 1 2)", rng.choice(["'a", "1/2", '"s"'])]),
+                               ("vector-length", [rng.choice(NON_VECTORS)]), ("vector-set!", [rng.choice(NON_VECTORS), "0", "1"]),
+                               ("vector-set!", ["(vector 1 2)", rng.choice(["'a", "1/2"]), "1"]), ("make-vector", [rng.choice(["'a", '"s"']), "0"])])
+    shape = rng.random()
+    if shape < 0.55:
+        return "(%s %s)" % (op, " ".join(args))
+    if shape < 0.7:
+        return "(apply %s (list %s))" % (op, " ".join(args))
+    if shape < 0.85:
+        cut = rng.randrange(0, len(args) + 1)
+        return "(apply %s %s (list %s))" % (op, " ".join(args[:cut]), " ".join(args[cut:]))
+    if len(args) == 1:      # the bundled map takes one list
+        return "(%s %s (list %s))" % (rng.choice(["map", "for-each"]), op, args[0])
+    return "(apply %s (append (list %s) (list %s)))" % (op, " ".join(args[:1]), " ".join(args[1:]))
+
+
 def inject_fault(rng, gen, forms):
     """insert one faulty form (kind x calling context) at a random position; returns
     (forms, index_of_faulty_form, expected_kind, context)"""
@@ -369,6 +410,8 @@ def inject_fault(rng, gen, forms):
             fault = "(%s %s)" % (n, " ".join(["1"] * (ar + 1))) if rng.random() < 0.5 or ar == 0 else "(%s %s)" % (n, " ".join(["1"] * (ar - 1)))
         else:
             fault = rng.choice(["((lambda (x) x))", "((lambda (x) x) 1 2)", "(car)", "(cons 1)", "((lambda (a . r) a))"])
+    elif kind == "type" and rng.random() < 0.7:
+        fault = type_fault(rng)
     else:
         fault = rng.choice(FAULTS[kind])
     ctx = rng.choice(["direct", "tail", "apply", "library", "operand", "nested-tail"])
